@@ -50,6 +50,8 @@ def one_history(ctx, rng, plan, oidc, roi, observers, label, fixed_ops=None, rul
             ctx.count("op:" + op[0])
             if op[0] == "authzc":
                 count_cookie_op(ctx, next(logs), op, out)
+            if op[0] == "authzr":
+                ctx.count("front-channel-authz:%s:%s:%s" % ("oidc" if oidc else "oauth2", op[4].replace(" ", "+"), out[0]))
             ctx.count("out:" + out[0] + (":" + str(out[1]) if out[0] in ("err", "exc") else ""))
         minted = sum(1 for op, out in rec if op[0] == "proc" and out[0] == "ok")
         ctx.case_seen(record, nontrivial=minted > 0)
@@ -127,10 +129,12 @@ def cookie_structured(scope_variants=True):
     return cases
 
 
-def run_histories(ctx, n_random, length, observers_factory, structured=(), seed_label="rnd", focus_of=None, cookie=False):
+def run_histories(ctx, n_random, length, observers_factory, structured=(), seed_label="rnd", focus_of=None, cookie=False, front=0.0):
     """focus_of(i): the shape of the i-th random history ("mixed", "multi" or "cookie", see sess.gen_history); default: all
     mixed.  cookie: the providers register two redirect_uris per client and the random part of every history contains
-    authorization requests that carry a session cookie (needs observers that understand the "authzc" operation)"""
+    authorization requests that carry a session cookie (needs observers that understand the "authzc" operation)
+    front: the share of the authorization requests of the random part that use an implicit / hybrid response type (needs
+    observers that understand the "authzr" operation)"""
     rng = ctx.rng
     cases = []
     k = 0
@@ -146,7 +150,7 @@ def run_histories(ctx, n_random, length, observers_factory, structured=(), seed_
         roi = (i % 5 == 4)
         focus = focus_of(i) if focus_of else "mixed"
         ctx.count("history-shape:" + focus)
-        plan = sess.gen_history(rng, rng.randint(*length), focus=focus, p_cookie=0.4 if cookie else 0.0)
+        plan = sess.gen_history(rng, rng.randint(*length), focus=focus, p_cookie=0.4 if cookie else 0.0, p_front=front)
         cases.append(one_history(ctx, rng, plan, oidc, roi, observers_factory(), "%s-%d" % (seed_label, i), rules=RULES[(i // 3) % 5],
                                  empty3=(i % 4 == 1), deny=(i % 4 == 3), two_redirects=cookie))
     ctx.coq_check_cases(IMPORTS, "hist", "chk_hist", cases, shard=12, label="hist", diag="diag_hist")
